@@ -14,7 +14,7 @@ pub enum CutKind {
 }
 
 /// One step of a script. *Modifiers* (Delay, Reorder, CutAt, UnsolicitedStream, TabletPayload,
-/// Warnings, FrameVersion) apply to the next *reply* action (Rows, Error, Unprepared, Void,
+/// Warnings, FrameVersion, Chunked) apply to the next *reply* action (Rows, Error, Unprepared, Void,
 /// SetKeyspace, SchemaChange, Prepared, Default, RawBody, NoReply, Garbage, Stall, Close);
 /// one request consumes modifiers up to and including one reply.
 #[derive(Clone, Debug, PartialEq, Eq)]
@@ -67,6 +67,10 @@ pub enum Action {
     Warnings(Vec<String>),
     /// override the version byte of the reply frame (default 0x84)
     FrameVersion(u8),
+    /// write the reply frame in pieces: split at these byte offsets of the encoded frame (header = 9
+    /// bytes), flushing and pausing `pause_ms` between pieces, so that the client reads a header or a
+    /// body in several chunks. No fault: the whole frame is delivered. (Traced as one `Ev::Out`.)
+    Chunked(Vec<usize>, u64),
 }
 
 impl Action {
@@ -80,6 +84,7 @@ impl Action {
                 | Action::TabletPayload(_)
                 | Action::Warnings(_)
                 | Action::FrameVersion(_)
+                | Action::Chunked(..)
         )
     }
 }
